@@ -177,6 +177,43 @@ class Prov:
     def visit(self, on_node):
         scoped_visit(self.fn.body, self.root, on_node)
 
+    def alternatives(self, e, scope, depth=0):
+        """the tag sets of the values an expression can be, one per branch: `if`/`match` at the top of the definition chain (through lets, references,
+        `.into()`/`.clone()`) are split instead of merged"""
+        if e is None or depth > 20:
+            return [set()]
+        k = e.get("k")
+        if k in ("paren", "ref", "un", "cast", "try"):
+            return self.alternatives(e["e"], scope, depth + 1)
+        if k == "mcall" and e["m"] in ("into", "clone", "as_ref", "to_owned", "unwrap", "expect") and not (e["m"] == "expect" and False):
+            return self.alternatives(e["r"], scope, depth + 1)
+        if k == "path":
+            b, _ = scope.lookup(e["p"]) if scope is not None else (None, None)
+            if b is not None and b["how"] == "let" and not b.get("via") and b["src"][0] is not None and not b.get("mut"):
+                return self.alternatives(b["src"][0], b["src"][1], depth + 1)
+            return [self.tags(e, scope)]
+        if k == "if" and e.get("e") is not None:
+            return self.alternatives(e["t"], scope, depth + 1) + self.alternatives(e["e"], scope, depth + 1)
+        if k == "match":
+            out = []
+            for a_ in e["arms"]:
+                s2 = scope.child() if scope is not None else Scope()
+                bind_pattern(a_["p"], (e["e"], scope), s2, "pat")
+                out += self.alternatives(a_["b"], s2, depth + 1)
+            return out
+        if k == "block":
+            s2 = scope.child() if scope is not None else Scope()
+            last = None
+            for st in e["s"]:
+                if st.get("k") == "local":
+                    s3 = s2.child()
+                    bind_pattern(st["p"], (st.get("init"), s2), s3, "let")
+                    s2 = s3
+                elif st.get("k") == "expr" and not st.get("semi"):
+                    last = st["e"]
+            return self.alternatives(last, s2, depth + 1) if last is not None else [set()]
+        return [self.tags(e, scope)]
+
     SHAPE_KEEPING = ("get", "get_mut", "copied", "cloned", "clone", "iter", "iter_mut", "into_iter", "next", "pop", "unwrap", "expect", "first", "last", "rev", "peekable", "peek",
                      "as_ref", "as_mut", "to_vec", "to_owned", "unwrap_or_default", "last_mut", "first_mut", "peek_mut", "by_ref", "as_deref", "as_deref_mut", "borrow", "borrow_mut")
 
